@@ -219,3 +219,48 @@ Definition uint_max : Z := 4294967295.
 Definition int64_min : Z := -9223372036854775808.
 Definition int64_max : Z := 9223372036854775807.
 Definition uint64_max : Z := 18446744073709551615.
+
+(* ------------------------------------------------------------------------------------------ *)
+(* decimal text in general: what strtol(3) / strtoul(3) / atoi(3) document for ANY byte string  *)
+(* ------------------------------------------------------------------------------------------ *)
+
+(* isspace in the C locale: space, \t \n \v \f \r *)
+Definition is_space (c : Z) : bool := (c =? 32) || ((9 <=? c) && (c <=? 13)).
+
+(* the optional sign *)
+Definition sign_text (sg : list Z) (neg : bool) : Prop :=
+  (sg = [] /\ neg = false) \/ (sg = [43] /\ neg = false) \/ (sg = [45] /\ neg = true).
+
+Definition first_is (p : Z -> bool) (l : list Z) : bool := match l with c :: _ => p c | [] => false end.
+
+(* "s = white space ++ optional sign ++ longest digit prefix ++ rest": ws is ALL the leading white
+   space and sg the sign if there is one (when there is none, what follows is neither white space
+   nor a sign), ds are digits and rest does not go on with a digit *)
+Definition decimal_shape (s ws sg : list Z) (neg : bool) (ds rest : list Z) : Prop :=
+  s = ws ++ sg ++ ds ++ rest /\
+  forallb is_space ws = true /\
+  sign_text sg neg /\
+  (sg = [] -> first_is (fun c => is_space c || (c =? 43) || (c =? 45)) (ds ++ rest) = false) /\
+  forallb is_digit ds = true /\
+  first_is is_digit rest = false.
+
+(* the value the prefix stands for, per type:
+   strtoll - clamped to [LLONG_MIN, LLONG_MAX];
+   strtoull - ULLONG_MAX when the magnitude does not fit, otherwise the magnitude, negated in
+              unsigned arithmetic after a '-';
+   atoi = (int)strtol and (uint)strtoul: clamped / negated at 64 bit FIRST, then truncated to 32 bit;
+   no digits: 0 *)
+Definition parsed_int64 (neg : bool) (ds : list Z) : Z :=
+  match ds with
+  | [] => 0
+  | _ => if neg then Z.max int64_min (- horner ds) else Z.min int64_max (horner ds)
+  end.
+Definition parsed_uint64 (neg : bool) (ds : list Z) : Z :=
+  match ds with
+  | [] => 0
+  | _ => if horner ds >? uint64_max then uint64_max
+         else if neg then (- horner ds) mod 18446744073709551616 else horner ds
+  end.
+Definition parsed_int (neg : bool) (ds : list Z) : Z :=
+  let r := parsed_int64 neg ds mod 4294967296 in if r <? 2147483648 then r else r - 4294967296.
+Definition parsed_uint (neg : bool) (ds : list Z) : Z := parsed_uint64 neg ds mod 4294967296.
